@@ -77,7 +77,11 @@ def parse_trace(msg):
     if lines[:2] != HEAD:
         return None, 'message does not start with the trace header'
     body = []
+    notes = []
     for s in lines[2:]:
+        if s.startswith('(note for planted ') and body:
+            notes.append((len(body), s))      # second line of the branch error listed just before
+            continue
         # trace lines are ' ' + indent/tick characters; the tail of the Python traceback follows
         if len(s) < 3 or s[0] != ' ' or s[1] not in '-|+\\X':
             break
@@ -98,6 +102,7 @@ def parse_trace(msg):
             cls = m.group(1) if m else rest
             n = re.match(r'planted (\d+)$', m.group(2) or '') if m else None
             out.append((depth, 'E', cls + (':%s' % n.group(1) if n and n.group(1) != '0' else '')))
+    parse_trace.notes = notes
     return (out, body, lines), None
 
 
@@ -188,6 +193,40 @@ def check_widths(st, obs, proj):
                 wv = width_law(k, shown, l, w)
                 if wv:
                     return 'width %d: %s' % (w, wv)
+    # a root target whose __len__ fails: the message is still produced, truncated without a length
+    bad = frames.execute(st['tree'], st['plan'], hook=False, big_root='badlen')
+    if bad['out'] != 'err':
+        return 'with a root target whose len() fails the call succeeded'
+    try:
+        bmsg = str(bad['error'])
+    except Exception as ex:
+        return 'str(error) raised %s for a long root target whose __len__ raises' % type(ex).__name__
+    parsed2, why2 = parse_trace(bmsg)
+    if why2:
+        return why2 + ' (root target whose __len__ raises)'
+    if [(d, k) for d, k, _ in parsed2[0]] != [(d, k) for d, k, _ in proj]:
+        return 'a root target whose __len__ raises changes the structure of the trace'
+    for (d, k, text), line in zip(parsed2[0], parsed2[1]):
+        if k == 'T' and text.startswith('t0<') and (not shows(text, full) or len(line) != TRACE_WIDTH):
+            return 'a long target whose __len__ raises is not shown as a faithful truncated prefix: %r' % (text[:60],)
+    # errors carrying a note (PEP 678): every branch error line still shows type and message, its note follows
+    nt = frames.execute(st['tree'], st['plan'], hook=False, notes=True)
+    if nt['out'] != 'err':
+        return 'with notes on the planted errors the call succeeded'
+    try:
+        nmsg = str(nt['error'])
+    except Exception as ex:
+        return 'str(error) raised %s when the errors carry notes' % type(ex).__name__
+    parsed3, why3 = parse_trace(nmsg)
+    got_notes = list(parse_trace.notes)
+    if why3:
+        return why3 + ' (errors with notes)'
+    if parsed3[0] != proj:
+        return 'a note on the errors changes the lines of the trace: %s vs %s' % (parsed3[0], proj)
+    want_notes = [(i + 1, '(note for planted %s)' % t.split(':')[1]) for i, (d, k, t) in enumerate(proj)
+                  if k == 'E' and t.startswith('PlantedError:')]
+    if got_notes != want_notes:
+        return 'notes of the branch errors: got %s, expected %s' % (got_notes, want_notes)
     # the message ends with the type and the FULL message of the original error, also when that message
     # has several lines, blank lines or caret-only lines
     res = st['res']
